@@ -112,3 +112,51 @@ M.contract(F, "config", params=dict(config_tree=Tree, rules=IRules), ret=Tree,
                                "imp_rules(config_tree, _rest1, imp_lines(config_tree, _rest2, rule, implicit_config_tree)) == imp_rules(config_tree, rules, {})"])},
            use=["comp_is_matched", "matched_in_keys"],
            canaries=["len(result) == 0"], inputs=_config_inputs, properties=["C17"])
+
+
+# ==================================================================================================================
+# compile_tree: the parsed text of the vendor's defaults -> the rule table used by config()
+PAttrs = U.record("PAttrs", dict(type=STR, row=STR, children="PTree"))
+PAttrs.absent_keys = ()
+PTree = U.dict("PTree", STR, PAttrs)
+def _crx_impl(row):
+    from annet.annlib.rbparser import syntax
+    return syntax.compile_row_regexp(row)
+
+
+crx = M.opaque("crx", [STR], Regex, impl=_crx_impl, note="syntax.compile_row_regexp(row) (C07)")
+
+
+@M.spec
+def ctree(tree: PTree, acc: IRules) -> IRules:
+    """one rule per parsed row, keyed by the row text: its type (`normal` or `ignore` for a `!` row), the compiled pattern of the
+    row and - recursively - the rules of its children"""
+    if not tree:
+        return acc
+    a = dhead(tree)[1]
+    return ctree(dtail(tree), dput(acc, a["row"], {"type": a["type"], "children": ctree(a["children"], odict()) if a["children"] else odict(),
+                                                 "regexp": crx(a["row"])}))
+
+
+def _ct_inputs():
+    from annet.annlib.rbparser import syntax
+
+    def node(row, typ, children=()):
+        return {"type": typ, "row": row, "children": odict((c["row"], c) for c in children), "params": {}}
+    leaves = [node("mtu 1500", "normal"), node("no shutdown", "normal")]
+    for combo in itertools.chain.from_iterable(itertools.permutations(
+            [node("stp enable", "normal"), node("interface *", "ignore", leaves), node("bgp *", "ignore", [node("af *", "ignore", leaves[:1])])], n)
+            for n in range(0, 4)):
+        yield dict(tree=odict((c["row"], c) for c in combo))
+
+
+M.contract(F, "compile_tree", params=dict(tree=PTree), ret=IRules, locals=dict(rules=IRules),
+           ensures=["result == ctree(tree, {})"],
+           loops={1: dict(match="tree.items()", inv=["ctree(_rest1, rules) == ctree(tree, {})"])},
+           calls={"syntax.compile_row_regexp": None},
+           canaries=["len(result) == 0"], inputs=_ct_inputs, properties=["C17"],
+           note="relative to syntax.compile_row_regexp (opaque crx; its language is the subject of C07)")
+M.contract(F, "<compile_row_regexp>", params=dict(row=STR), ret=Regex, trusted=True, ensures=["result == crx(row)"],
+           note="syntax.compile_row_regexp: opaque here", properties=["C17"])
+_cq = {c.qual: c for c in M.contracts}
+_cq["compile_tree"].calls["syntax.compile_row_regexp"] = _cq["<compile_row_regexp>"]
